@@ -15,7 +15,7 @@ RULE = ("the C01 / C02 program generators; graph 1 driven by torchjd with Consta
         "large entries), graph 2 (twin, bit-identical forward) by torch.autograd.backward with grad_tensors = w split per tensor; "
         "every leaf's .grad compared (None pattern + values); non-trivial = mixed-sign weights and >= 2 rows; distinct = case sha1")
 ASSUMPTIONS = ["torch.autograd.backward on a twin graph is the oracle the property names"]
-N = {"quick": (1500, 900), "thorough": (150000, 90000)}
+N = {"quick": (1500, 900), "thorough": (600000, 360000)}
 TOL = {"float64": 1e-10, "float32": 1e-4}
 
 
